@@ -483,6 +483,7 @@ func (f *httpFetcher) fetch(ctx context.Context, rs []region, retry bool) (multi
 	f.urlMu.Lock()
 	url := f.url
 	f.urlMu.Unlock()
+	verifSchedPoint("fetch")
 	req, err := http.NewRequestWithContext(ctx, "GET", url, nil)
 	if err != nil {
 		return nil, err
@@ -556,6 +557,7 @@ func (f *httpFetcher) check() error {
 	f.urlMu.Lock()
 	url := f.url
 	f.urlMu.Unlock()
+	verifSchedPoint("check")
 	req, err := http.NewRequestWithContext(ctx, "GET", url, nil)
 	if err != nil {
 		return fmt.Errorf("check failed: failed to make request: %w", err)
